@@ -469,11 +469,12 @@ def strategies():
             cases.append(dict(pat=p, guard=g, body=draw(st.sampled_from(["plain", "plain", "ifdo", "try", "nested"]))))
         # rare illegal mutations: duplicate capture, alternatives with different names
         m = draw(st.integers(0, 39))
-        if m == 0 and cases:
+        # (Hypothesis favours the ends of an integer range, so the rare branches sit in the middle of it)
+        if m == 13 and cases:
             cases[0]["pat"] = ["seq", "list", [["cap", "dup"], ["cap", "dup"]]]
-        elif m == 1 and cases:
+        elif m == 22 and cases:
             cases[0]["pat"] = ["or", [["cap", "p"], ["seq", "list", [["cap", "q"]]]]]
-        elif m == 2 and cases:
+        elif m == 29 and cases:
             cases[0]["pat"] = ["map", [["'k'", ["wild"]], ["'k'", ["wild"]]], None]
 
         def inst(p):
